@@ -445,3 +445,20 @@ impl Parser {
         self.errors.err(message, span)
     }
 }
+
+/// Verification hook: run the attribute tokenizer and describe each item.
+#[cfg(feature = "verif_hooks")]
+pub fn nested_debug(stream: TokenStream) -> Vec<String> {
+    AttributeParser::new(stream)
+        .map(|n| match n {
+            Nested::Unnamed(ts) => format!("Unnamed[{ts}]"),
+            Nested::Unexpected(ts) => format!("Unexpected[{ts}]"),
+            Nested::Named(name, NestedValue::Assign(ts)) => format!("Named[{name}]Assign[{ts}]"),
+            Nested::Named(name, NestedValue::Literal(l)) => format!("Named[{name}]Literal[{l}]"),
+            Nested::Named(name, NestedValue::Group(ts)) => format!("Named[{name}]Group[{ts}]"),
+            Nested::Named(name, NestedValue::KeywordAssign(k, ts)) => {
+                format!("Named[{name}]KeywordAssign[{k}][{ts}]")
+            }
+        })
+        .collect()
+}
